@@ -10,6 +10,7 @@ from . import runcommon as rc
 MUTATORS = {"append", "extend", "insert", "pop", "remove", "sort", "reverse", "clear", "add", "update", "popleft", "appendleft", "discard", "setdefault"}
 FRESH_CALLS = {"list", "sorted", "dict", "set", "tuple", "str", "int", "LazyList", "vyxalify", "range", "map", "filter", "zip", "enumerate", "reversed", "vy_str", "vy_repr", "simplify", "wrap", "pad_to_square"}
 SAME_OBJECT_CALLS = {"iterable", "wrapify", "scalarify", "deep_copy_not"}  # return their argument itself for lists
+SHALLOW_COPY_CALLS = {"list", "sorted", "reversed", "tuple", "copy"}  # a new container holding the same item objects
 
 
 def owner_analysis(fn):
@@ -19,62 +20,118 @@ def owner_analysis(fn):
     frame clause `modifies nothing reachable from the arguments`."""
     params = {a.arg for a in fn.args.args + fn.args.kwonlyargs if a.arg not in ("ctx", "self")}
     hits = set()
-    ever = set(params)
+    ever = {p: "own" for p in params}
     nested = []
 
-    def may_alias(e, tainted):
+    def level(e, tainted):
+        """None: fresh / unrelated; "own": may be (part of) an argument; "holds": a fresh container whose items may be
+        items of an argument (shallow copies, comprehensions over an owner)"""
         if isinstance(e, ast.Name):
-            return e.id in tainted
+            return tainted.get(e.id)
         if isinstance(e, ast.IfExp):
-            return may_alias(e.body, tainted) or may_alias(e.orelse, tainted)
+            return join(level(e.body, tainted), level(e.orelse, tainted))
         if isinstance(e, ast.BoolOp):
-            return any(may_alias(v, tainted) for v in e.values)
+            out = None
+            for v in e.values:
+                out = join(out, level(v, tainted))
+            return out
         if isinstance(e, ast.NamedExpr):
-            return may_alias(e.value, tainted)
+            return level(e.value, tainted)
         if isinstance(e, ast.Call):
             f = e.func.id if isinstance(e.func, ast.Name) else getattr(e.func, "attr", None)
             if f in SAME_OBJECT_CALLS:
-                return any(may_alias(a, tainted) for a in e.args)
-            return False
-        if isinstance(e, ast.Subscript) and not isinstance(e.slice, ast.Slice):
-            return may_alias(e.value, tainted)  # an item of an argument is reachable from it
-        return False  # attributes, fresh containers, calls of anything else
+                out = None
+                for a in e.args:
+                    out = join(out, level(a, tainted))
+                return out
+            if f in SHALLOW_COPY_CALLS and e.args and level(e.args[0], tainted):
+                return "holds"  # list(x), sorted(x), reversed(x), x.copy(): a new container of the same items
+            return None
+        if isinstance(e, ast.Subscript):
+            base = level(e.value, tainted)
+            if isinstance(e.slice, ast.Slice):
+                return "holds" if base else None  # a slice copies the container, not the items
+            return "own" if base else None  # an item of an owner (or of a holder) is reachable from the argument
+        if isinstance(e, ast.BinOp) and isinstance(e.op, ast.Add):
+            return "holds" if (level(e.left, tainted) or level(e.right, tainted)) else None
+        if isinstance(e, (ast.ListComp, ast.GeneratorExp, ast.SetComp)):
+            local = dict(tainted)
+            for g in e.generators:
+                if iter_level(g.iter, local):
+                    for x in ast.walk(g.target):
+                        if isinstance(x, ast.Name):
+                            local[x.id] = "own"
+            return "holds" if level(e.elt, local) else None
+        if isinstance(e, (ast.Tuple, ast.List)):
+            return "holds" if any(level(x, tainted) for x in e.elts) else None
+        return None  # attributes, calls of anything else
+
+    def join(a, b):
+        return "own" if "own" in (a, b) else ("holds" if "holds" in (a, b) else None)
+
+    def iter_level(it, tainted):
+        """iterating an owner or a holder yields items that may be items of an argument"""
+        if level(it, tainted):
+            return True
+        return isinstance(it, ast.Call) and getattr(it.func, "id", None) in ("enumerate", "zip", "reversed", "map", "filter") and any(level(a, tainted) for a in it.args)
+
+    def may_alias(e, tainted):
+        return level(e, tainted) == "own"
 
     def root_name(t):
         while isinstance(t, (ast.Subscript, ast.Attribute)):
             t = t.value
         return t.id if isinstance(t, ast.Name) else None
 
+    def store_hits(t, tainted, lineno):
+        """x[i] = v / x.a = v : container-level store on an owner; item-level store through a holder (x[i][j] = v)"""
+        if not isinstance(t, (ast.Subscript, ast.Attribute)):
+            return
+        r = root_name(t)
+        lv = tainted.get(r)
+        if lv == "own" or (lv == "holds" and isinstance(t.value, (ast.Subscript, ast.Attribute))):
+            hits.add((lineno, ast.unparse(t) + " = ..."))
+
     def scan_expr(e, tainted, lineno):
         """mutating calls inside one expression (lambdas and comprehensions included)"""
         if e is None:
             return
-        local = set(tainted)
+        local = dict(tainted)
         for n in ast.walk(e):
-            if isinstance(n, ast.comprehension):
-                src = may_alias(n.iter, local) or (isinstance(n.iter, ast.Call) and getattr(n.iter.func, "id", None) in ("enumerate", "zip", "reversed") and any(may_alias(a, local) for a in n.iter.args))
-                if src:
-                    local |= {x.id for x in ast.walk(n.target) if isinstance(x, ast.Name)}
+            if isinstance(n, ast.comprehension) and iter_level(n.iter, local):
+                for x in ast.walk(n.target):
+                    if isinstance(x, ast.Name):
+                        local[x.id] = "own"
         for n in ast.walk(e):
-            if isinstance(n, ast.Call) and isinstance(n.func, ast.Attribute) and n.func.attr in MUTATORS and isinstance(n.func.value, ast.Name) and n.func.value.id in local:
-                hits.add((n.lineno, f"{n.func.value.id}.{n.func.attr}(...)"))
-            if isinstance(n, ast.Call) and ast.unparse(n.func) in ("random.shuffle",) and n.args and isinstance(n.args[0], ast.Name) and n.args[0].id in local:
+            if isinstance(n, ast.Call) and isinstance(n.func, ast.Attribute) and n.func.attr in MUTATORS and level(n.func.value, local) == "own":
+                hits.add((n.lineno, f"{ast.unparse(n.func.value)}.{n.func.attr}(...)"))
+            if isinstance(n, ast.Call) and ast.unparse(n.func) in ("random.shuffle",) and n.args and level(n.args[0], local) == "own":
                 hits.add((n.lineno, ast.unparse(n)))
             if isinstance(n, ast.NamedExpr) and isinstance(n.target, ast.Name):
-                (tainted.add if may_alias(n.value, local) else tainted.discard)(n.target.id)
+                set_level(tainted, n.target.id, level(n.value, local))
 
-    def bind(targets, src, tainted):
+    def set_level(tainted, name, lv):
+        if lv:
+            tainted[name] = lv
+        else:
+            tainted.pop(name, None)
+
+    def bind(targets, lv, tainted):
         for t in targets:
             if isinstance(t, ast.Name):
-                (tainted.add if src else tainted.discard)(t.id)
+                set_level(tainted, t.id, lv)
             elif isinstance(t, (ast.Tuple, ast.List)):
-                bind(t.elts, src, tainted)
+                bind(t.elts, "own" if lv else None, tainted)  # unpacking yields items
             elif isinstance(t, ast.Starred):
-                bind([t.value], src, tainted)
+                bind([t.value], "holds" if lv else None, tainted)
+
+    def merge(into, other):
+        for k, v in other.items():
+            into[k] = join(into.get(k), v)
 
     def run(stmts, tainted):
         for st in stmts:
-            ever.update(tainted)
+            merge(ever, tainted)
             if isinstance(st, (ast.FunctionDef, ast.AsyncFunctionDef)):
                 nested.append(st)
                 continue
@@ -82,52 +139,49 @@ def owner_analysis(fn):
                 scan_expr(st.value, tainted, st.lineno)
                 targets = st.targets if isinstance(st, ast.Assign) else [st.target]
                 for t in targets:
-                    if isinstance(t, (ast.Subscript, ast.Attribute)) and root_name(t) in tainted:
-                        hits.add((st.lineno, ast.unparse(t) + " = ..."))
+                    store_hits(t, tainted, st.lineno)
                 if st.value is not None:
-                    bind(targets, may_alias(st.value, tainted), tainted)
+                    bind(targets, level(st.value, tainted), tainted)
             elif isinstance(st, ast.AugAssign):
                 scan_expr(st.value, tainted, st.lineno)
-                if isinstance(st.target, (ast.Subscript, ast.Attribute)) and root_name(st.target) in tainted:
-                    hits.add((st.lineno, ast.unparse(st.target) + " = ..."))
+                store_hits(st.target, tainted, st.lineno)
             elif isinstance(st, ast.For):
                 scan_expr(st.iter, tainted, st.lineno)
-                src = may_alias(st.iter, tainted) or (isinstance(st.iter, ast.Call) and getattr(st.iter.func, "id", None) in ("enumerate", "zip", "reversed") and any(may_alias(a, tainted) for a in st.iter.args))
+                src = iter_level(st.iter, tainted)
                 for _ in range(3):
-                    before = set(tainted)
-                    if src:
-                        tainted |= {x.id for x in ast.walk(st.target) if isinstance(x, ast.Name)}
-                    else:
-                        bind([st.target], False, tainted)
+                    before = dict(tainted)
+                    bind([st.target], "own" if src else None, tainted)
                     run(st.body, tainted)
-                    tainted |= before
+                    merge(tainted, before)
                     if tainted == before:
                         break
                 run(st.orelse, tainted)
             elif isinstance(st, ast.While):
                 for _ in range(3):
-                    before = set(tainted)
+                    before = dict(tainted)
                     scan_expr(st.test, tainted, st.lineno)
                     run(st.body, tainted)
-                    tainted |= before
+                    merge(tainted, before)
                     if tainted == before:
                         break
                 run(st.orelse, tainted)
             elif isinstance(st, ast.If):
                 scan_expr(st.test, tainted, st.lineno)
-                a, b = set(tainted), set(tainted)
+                a, b = dict(tainted), dict(tainted)
                 run(st.body, a)
                 run(st.orelse, b)
                 tainted.clear()
-                tainted |= a | b
+                merge(tainted, a)
+                merge(tainted, b)
             elif isinstance(st, ast.Try):
-                before = set(tainted)
+                before = dict(tainted)
                 run(st.body, tainted)
-                outs = set(tainted) | before
+                outs = dict(tainted)
+                merge(outs, before)
                 for h in st.handlers:
-                    hs = set(outs)
+                    hs = dict(outs)
                     run(h.body, hs)
-                    tainted |= hs
+                    merge(tainted, hs)
                 run(st.orelse, tainted)
                 run(st.finalbody, tainted)
             elif isinstance(st, ast.With):
@@ -138,15 +192,60 @@ def owner_analysis(fn):
                 for child in ast.iter_child_nodes(st):
                     if isinstance(child, ast.expr):
                         scan_expr(child, tainted, st.lineno)
-        ever.update(tainted)
+        merge(ever, tainted)
 
-    run(fn.body, set(params))
+    run(fn.body, {p: "own" for p in params})
     done = 0
     while done < len(nested):  # closures run at an unknown time: every name that is an owner anywhere counts
         nd = nested[done]
         done += 1
-        run(nd.body, set(ever))
+        run(nd.body, dict(ever))
     return sorted(hits)
+
+
+ALLOWED_CACHE_USES = {
+    "read",
+    "rebind in __init__",  # the cache starts empty
+    "append in __next__",  # the only way an item enters the cache
+    "extend in reversed",  # reversed() drains the rest of the source into the cache (appends at the end)
+    "setitem in __setitem__",  # the documented exception: reachable only from assign_iterable, which works on a copy
+    "escape: ctx.stacks.append(self.generated) in output",  # output() registers the cache as the current stack while printing and pops it (C12)
+}
+
+
+def cache_uses(cls):
+    """every syntactic use of `self.generated` inside class LazyList, classified: reads (index, slice, len, truth,
+    iteration, membership) / the write forms / `escape`: the cache object itself leaves the method (returned, stored,
+    passed on), after which nothing here can say who mutates it"""
+    forms = set()
+    for meth in [n for n in cls.body if isinstance(n, ast.FunctionDef)]:
+        parents = {}
+        for p in ast.walk(meth):
+            for c in ast.iter_child_nodes(p):
+                parents[id(c)] = p
+        for x in ast.walk(meth):
+            if not (isinstance(x, ast.Attribute) and x.attr == "generated" and isinstance(x.value, ast.Name) and x.value.id == "self"):
+                continue
+            p = parents.get(id(x))
+            if isinstance(x.ctx, ast.Store):
+                forms.add(("extend in " if isinstance(p, ast.AugAssign) and isinstance(p.op, ast.Add) else "rebind in ") + meth.name)
+            elif isinstance(p, ast.AugAssign) and p.target is x:
+                forms.add(("extend in " if isinstance(p.op, ast.Add) else "augassign in ") + meth.name)
+            elif isinstance(p, ast.Subscript) and p.value is x:
+                forms.add("read" if isinstance(p.ctx, ast.Load) else ("setitem in " + meth.name if isinstance(p.ctx, ast.Store) else "delitem in " + meth.name))
+            elif isinstance(p, ast.Attribute) and p.value is x:
+                forms.add(("append in " + meth.name) if p.attr == "append" else ("read" if p.attr in ("count", "index", "copy") else f"mutate .{p.attr} in {meth.name}"))
+            elif isinstance(p, ast.Call) and x in p.args and ast.unparse(p.func) in ("len", "bool", "iter", "list", "tuple", "sorted", "reversed", "enumerate", "sum", "any", "all", "str", "repr"):
+                forms.add("read")
+            elif isinstance(p, (ast.If, ast.While, ast.IfExp)) and p.test is x or isinstance(p, ast.UnaryOp) and isinstance(p.op, ast.Not) or isinstance(p, ast.BoolOp):
+                forms.add("read")
+            elif isinstance(p, (ast.For, ast.comprehension)) and p.iter is x or isinstance(p, ast.YieldFrom) or isinstance(p, ast.Compare):
+                forms.add("read")
+            elif isinstance(p, ast.BinOp):
+                forms.add("read")  # cache + other builds a new list
+            else:
+                forms.add(f"escape: {ast.unparse(p)[:80]} in {meth.name}")
+    return forms
 
 
 class C10(Prop):
@@ -156,6 +255,7 @@ class C10(Prop):
     trusted_base = ["aliasing is tracked syntactically per function (owner tags: a name that may denote an argument or an item of one); the analysis does not follow values through containers other than the argument itself", "C functions of the standard library do not mutate their arguments except the listed mutators"]
     paper_steps = [
         "frame clause `modifies nothing reachable from the arguments` for every function of elements.py and helpers.py: every mutating operation (item / attribute assignment, list mutators, random.shuffle) must act on a name that cannot alias an argument (ground, syntactic, complete over the two files)",
+        "the lazy list cache is append-only and private: every use of self.generated in LazyList.py is a read, the append in __next__, the extension in reversed(), the initial binding, __setitem__ (reachable only from assign_iterable, on a copy) or output()'s registration as a stack; it is never returned or stored elsewhere (obligation C10/lazylist-cache-append-only)",
         "copy-on-duplicate: the templates of : D Ḃ ¾ push deep_copy(...) / list(deep_copy(...)) (ground on the live table); deep_copy itself and the laziness of its tee are exercised by the bounded program-level run only",
     ]
 
@@ -174,14 +274,22 @@ class C10(Prop):
                 if fn.name in ("pop", "wrapify", "function_call"):
                     continue  # the stack protocol: these receive the operand stack (not a Vyxal value) and pop from it by design
                 hits = owner_analysis(fn)
-                g.append(Ground(f"C10/frame[{rel}::{fn.name}]", not hits, "; ".join(f"line {l}: {t}" for l, t in hits), witness=dict(function=fn.name, operations=[t for _, t in hits]) if hits else None))
+                g.append(Ground(f"C10/frame[{rel}::{fn.name}]", not hits, "; ".join(f"line {l}: {t}" for l, t in hits), witness=dict(function=fn.name, operations=[t for _, t in hits]) if hits else None, native=False))
         g.append(Ground("C10/functions-scanned", n_fn > 300, f"{n_fn} functions"))
+        # the lazy list's cache is append-only and never leaves the object
+        mod, _ = W.module_ast("vyxal/LazyList.py")
+        cls = [n for n in mod.body if isinstance(n, ast.ClassDef) and n.name == "LazyList"]
+        if not cls:
+            g.append(Ground("C10/lazylist-cache-append-only", False, "class LazyList not found"))
+        else:
+            extra = sorted(cache_uses(cls[0]) - ALLOWED_CACHE_USES)
+            g.append(Ground("C10/lazylist-cache-append-only", not extra, f"uses of self.generated beyond reads and the listed writes: {extra}", witness=dict(uses=extra) if extra else None, native=False))
         for k, want in ((":", "stack.append(deep_copy(top))"), ("D", "stack.append(deep_copy(top))"), ("Ḃ", "stack.append(deep_copy(top))"), ("¾", "list(deep_copy(ctx.global_array))")):
-            g.append(Ground(f"C10/copy-on-duplicate[{k}]", want in el.elements[k][0], f"template: {el.elements[k][0][:120]}", witness=dict(element=k)))
+            g.append(Ground(f"C10/copy-on-duplicate[{k}]", want in el.elements[k][0], f"template: {el.elements[k][0][:120]}", witness=dict(element=k), native=False))
         # modifier templates must not write attributes of the function value they were given
         for k, tpl in el.modifiers.items():
             stores = [ast.unparse(t) for st in ast.walk(ast.parse(tpl)) if isinstance(st, ast.Assign) for t in st.targets if isinstance(t, ast.Attribute) and isinstance(t.value, ast.Name) and t.value.id.startswith("function_")]
-            g.append(Ground(f"C10/modifier-leaves-function-value-alone[{k}]", not stores, f"{stores}", witness=dict(modifier=k, stores=stores) if stores else None))
+            g.append(Ground(f"C10/modifier-leaves-function-value-alone[{k}]", not stores, f"{stores}", witness=dict(modifier=k, stores=stores) if stores else None, native=False))
         return g
 
     # ---- bounded: <value> <copy-op> <elements> and compare the untouched copy
